@@ -75,6 +75,21 @@ def jobs(tier):
             gs = [9, 24, 33] if tier == "quick" else [1, 9, 17, 24, 33, 40]
         for gi in gs:
             out.append(("gvc.props.c07", "ob_model", dict(cfg=c, gi=gi)))
+    out += leaf_contract_jobs()
+    return out
+
+
+def leaf_contract_jobs():
+    """the composition argument replaces every layer by its relational contract; those contracts are owned by C06
+    (ConvContract) and C08 (normalisation, nonlinearity, pooling) and, for the action itself, by C02.  A reduced grid of
+    them (d=2, one rotation and one reflection; every bias mode) is re-run here so that this check is self-contained:
+    a defect inside a layer fails `./check C07` too (under the obligation name of the owning property)."""
+    from .common import dep_jobs
+    out = dep_jobs("gvc.props.c06", lambda fn, kw: fn == "ob_bias" or (fn == "ob_layer" and kw["D"] == 2 and kw["gs"][0] in (1, 3)
+                                                                      and kw["opt"]["padding"] in (None, "SAME")))
+    out += dep_jobs("gvc.props.c08", lambda fn, kw: fn.startswith("ob_") and kw.get("D") == 2 and kw.get("gi") in (1, 3)
+                    and not (fn == "ob_vn" and kw["k"] == 2))
+    out += dep_jobs("gvc.props.c02", lambda fn, kw: fn == "ob_entry" and kw["D"] == 2)
     return out
 
 
